@@ -189,7 +189,9 @@ type world struct {
 	nAddr  int
 }
 
-var trickyNames = []string{"true", "~", "null", "a: b", "#x", " lead", "trail ", "- item", "{a}", "[b]", "'q'", "\"dq\"", "0123", "1e3", "yes", "multi word login", "é-accent", "tab\there", "%pct", "*star", "&amp", "!bang", "|pipe", ">gt", "@at", "`bt"}
+var trickyNames = []string{"true", "~", "null", "a: b", "#x", " lead", "trail ", "- item", "{a}", "[b]", "'q'", "\"dq\"", "0123", "1e3", "yes", "multi word login", "é-accent", "tab\there", "%pct", "*star", "&amp", "!bang", "|pipe", ">gt", "@at", "`bt",
+	// shapes that mean something to code handling file names: hidden files, extensions, temporary-file look-alikes
+	".ops", ".hidden login", "...", "..x", "x.yaml", "y.yaml.tmp", ".account-1.tmp", "dot.", "-dash", "~tilde", "z.YAML", "a.b.c"}
 
 func genName(r *core.Rand, maxLen int) string {
 	switch r.Intn(6) {
